@@ -218,9 +218,7 @@ fn run_one(out: &mut Out, lines: &[String]) {
 				}
 				_ => {}
 			}
-			for wt in &obs.wires {
-				orc.wire(wt);
-			}
+			// what the client received comes before what it wrote as a consequence …
 			if w[1] == "deliver" {
 				let text = String::from_utf8(unhex(w[2])).unwrap_or_default();
 				orc.deliver(&text);
@@ -228,33 +226,22 @@ fn run_one(out: &mut Out, lines: &[String]) {
 					dead = true;
 				}
 			}
+			// … except requests of new front-end operations, which `deliver` lines never carry
+			for wt in &obs.wires {
+				orc.wire(wt);
+			}
 			if let Some(sz) = &obs.sizes {
 				let q = orc.quiescent();
 				out.count(if q { "sizes.quiescent" } else { "sizes.busy" });
 				if q {
 					nontrivial = true;
 					if *sz != [0, 0, 0, 0] {
-						// matcher: only `requests` is non-empty, and its size is exactly the residue that the
-						// four recorded leak paths account for (a: 1, b: 1, c: 1, d: 2 each — d never reaches
-						// quiescence, so it cannot appear here)
-						let expect = orc.residue[0] + orc.residue[1] + orc.residue[2];
-						let msg = format!(
-							"tables {sz:?} at a quiescent point (refused={}, unsubscribed+acked={}, closed by server={})",
+						// pre-fix (F-10 a/b/c) the requests table kept one PendingMethodCall(None) entry per refused /
+						// unsubscribed+acknowledged / server-closed subscription
+						verdict = Err(format!(
+							"tables {sz:?} are not empty at a quiescent point (so far: refused={}, unsubscribed+acked={}, closed by server={})",
 							orc.residue[0], orc.residue[1], orc.residue[2]
-						);
-						let key = if orc.residue[0] > 0 {
-							Some("leak-refused-subscribe")
-						} else if orc.residue[1] > 0 {
-							Some("leak-unsubscribed-marker")
-						} else if orc.residue[2] > 0 {
-							Some("leak-server-closed-slot")
-						} else {
-							None
-						};
-						verdict = match key {
-							Some(k) if sz[1] == 0 && sz[2] == 0 && sz[3] == 0 && sz[0] == expect => Err(format!("KF {k} {msg}")),
-							_ => Err(msg),
-						};
+						));
 					}
 				} else {
 					// not quiescent: whatever is in the tables must be accounted for by open work or known residue
@@ -264,9 +251,9 @@ fn run_one(out: &mut Out, lines: &[String]) {
 						.values()
 						.filter(|s| matches!(s.state, SubState::Pending | SubState::Active | SubState::UnsubSent | SubState::AbandonedAccepted))
 						.count();
-					let bound = open_calls + 2 * open_subs + orc.residue[0] + orc.residue[1] + orc.residue[2];
+					let bound = open_calls + 2 * open_subs;
 					if sz[0] > bound {
-						verdict = Err(format!("requests table has {} entries but only {bound} are accounted for by open work and known residue", sz[0]));
+						verdict = Err(format!("requests table has {} entries but only {bound} are accounted for by open work", sz[0]));
 					}
 					if sz[2] > orc.batches.len() + orc.unsent.iter().filter(|u| u.1 == "batch").count() {
 						verdict = Err(format!("batches table has {} entries, open batches {}", sz[2], orc.batches.len()));
@@ -279,7 +266,7 @@ fn run_one(out: &mut Out, lines: &[String]) {
 				for (op, s) in &orc.subs {
 					if s.state == SubState::AbandonedAccepted && !obs.wires.iter().any(|t| t.contains("\"unsub\"")) && !s.ended_by_client {
 						verdict = Err(format!(
-							"KF abandoned-subscribe-not-unsubscribed subscribe {op} was abandoned by the application and then accepted by the server, but no unsubscribe request was written"
+							"subscribe {op} was abandoned by the application and then accepted by the server, but no unsubscribe request was written"
 						));
 					}
 				}
@@ -287,18 +274,6 @@ fn run_one(out: &mut Out, lines: &[String]) {
 		}
 		recs.push((line.to_string(), obs.render(), verdict, nontrivial));
 	});
-	// report (d) only once per subscription: keep the first KF line per case
-	let mut seen_d = false;
-	for r in recs.iter_mut() {
-		if let Err(e) = &r.2 {
-			if e.starts_with("KF abandoned-subscribe-not-unsubscribed") {
-				if seen_d {
-					r.2 = Ok(());
-				}
-				seen_d = true;
-			}
-		}
-	}
 	for (l, o, v, nt) in recs {
 		out.line(l, o, v, nt);
 	}
